@@ -81,6 +81,12 @@ impl<'a> Token<'a> {
                     })
                 }
                 ENC_PREFIX => {
+                    if escaped {
+                        return Err(EncodingError {
+                            offset,
+                            source: InvalidEncoding::Tilde,
+                        });
+                    }
                     escaped = true;
                 }
                 TILDE_ENC | SLASH_ENC if escaped => {
